@@ -14,6 +14,7 @@ TDict(a, b)   == [k |-> "dict", a |-> a, b |-> b]
 TTup(as)      == [k |-> "tuple", as |-> as]         \* Tuple[a1, ..., an]
 TTupVar(a)    == [k |-> "tuplevar", a |-> a]        \* Tuple[a, ...]
 TType(c)      == [k |-> "type", c |-> c]            \* Type[c]
+TTypeU(cs)    == [k |-> "typeu", cs |-> cs]         \* Type[Union[cs...]]
 TUnion(as)    == [k |-> "union", as |-> as]         \* Union / Optional / X | Y
 TLit(vs)      == [k |-> "literal", vs |-> vs]
 NoBound       == [b |-> "none", x |-> 0]
@@ -49,6 +50,7 @@ Conforms(v, T) ==
     [] T.k = "tuple"    -> v.t = "tuple" /\ Len(v.e) = Len(T.as) /\ \A j \in 1..Len(v.e) : Conforms(v.e[j], T.as[j])
     [] T.k = "tuplevar" -> v.t = "tuple" /\ \A j \in 1..Len(v.e) : Conforms(v.e[j], T.a)
     [] T.k = "type"     -> v.t = "cls" /\ (T.c = "any" \/ SubclassOf(v.n, T.c))          \* Type[Any]: every class
+    [] T.k = "typeu"    -> v.t = "cls" /\ \E j \in 1..Len(T.cs) : SubclassOf(v.n, T.cs[j])      \* Type[Union[c1, c2, ...]]: a subclass of some alternative
     [] T.k = "union"    -> \E j \in 1..Len(T.as) : Conforms(v, T.as[j])
     [] T.k = "literal"  -> \E j \in 1..Len(T.vs) : PyEq(v, T.vs[j])
     [] T.k = "bounded"  -> ConformsBase(v, T.n) /\ InBounds(v, T.lo, T.hi)
